@@ -260,6 +260,9 @@ func (vc *VC) execFunc(fn *ssa.Function, args []Val, st *State, reach string, pa
 	if parent != nil {
 		fr.depth = parent.depth + 1
 		fr.pure = fr.pure || parent.pure
+		if !fr.pure && inModule(fn) {
+			vc.assumptionsUsedInl(fn.String())
+		}
 	}
 	if fr.depth > 12 {
 		panic(unsupported("inlining too deep at " + fn.String()))
@@ -689,6 +692,10 @@ func (fr *Frame) unop(b *ssa.BasicBlock, x *ssa.UnOp, st *State, reach string) {
 	v := fr.get(x.X)
 	switch x.Op {
 	case token.MUL:
+		if g, ok := x.X.(*ssa.Global); ok && g.Pkg != nil && g.Pkg.Pkg.Path() == "io" && g.Name() == "EOF" {
+			fr.bind(x, Val{S: vc.eng.eofErr()})
+			return
+		}
 		l := vc.locOf(v)
 		if (l.Kind == locStruct || l.Kind == locBox) && len(l.Path) == 0 {
 			fr.checkNonNil(b, l.Ref, reach, x.Pos())
@@ -1009,7 +1016,12 @@ func (fr *Frame) makeInterface(x *ssa.MakeInterface, st *State) {
 	t := x.X.Type()
 	tag := vc.eng.typeTag(t)
 	var ref string
-	if isPointerish(t) {
+	if v.Loc != nil && !((v.Loc.Kind == locStruct || v.Loc.Kind == locBox) && len(v.Loc.Path) == 0) {
+		// interior pointer boxed in an interface (e.g. &x.f in a []interface{} literal):
+		// opaque reference; the location is remembered for a later type assertion
+		ref = vc.alloc(st)
+		vc.eng.ifaceLocs[ref] = v.Loc
+	} else if isPointerish(t) {
 		ref = vc.valTerm(v)
 	} else {
 		ref = vc.alloc(st)
